@@ -170,8 +170,8 @@ pub fn draw_spec(rng: &mut Rng, roots: &[String], other_files: &[String], known_
 /// Knob-only variation for corpus/mutant jobs: budget, both debug switches,
 /// colour, quiet — never anything that can itself be malformed.
 pub fn draw_knobs(rng: &mut Rng, spec: &mut Spec) {
-    if spec.iters.is_none() && rng.chance(1, 2) {
-        spec.iters = Some(rng.pick(&["1", "2", "3", "10", "30"]).to_string());
+    if spec.iters.is_none() && rng.chance(2, 5) {
+        spec.iters = Some(rng.pick(&["1", "2", "3", "10", "30", "10", "30", "5"]).to_string());
     }
     spec.no_opt_static |= rng.chance(1, 4);
     spec.no_opt_matcher |= rng.chance(1, 4);
